@@ -5,6 +5,7 @@ let () =
   | _ :: ("c10" | "c11") :: rest -> C10.run rest
   | _ :: ("c05" | "c14") :: rest -> C05.run rest
   | _ :: "c13" :: rest -> C13.run rest
-  | _ :: ("c04" | "c07") :: rest -> C04.run rest
+  | _ :: "c04" :: rest -> C04.run rest
   | _ :: ("c01" | "c02") :: rest -> C01.run rest
+  | _ :: ("c06" | "c07") :: rest -> C06.run rest
   | _ -> prerr_endline "usage: model <property> ..."; exit 2
